@@ -134,6 +134,8 @@ class ScratchModules(object):
               "CLOSING = 'text [/info]'\n" + "\n" * 12 +
               "def thrower(exc):\n    raise exc\n")
     PLAIN = "def thrower(exc):\n    raise exc\n"
+    UNCLOSED = 'def thrower(exc):\n    text = """never closed\n    raise exc\n'
+    DEDENTED = "def thrower(exc):\n        a = 1\n    raise exc\n"
 
     def __enter__(self):
         import importlib.util
@@ -141,7 +143,8 @@ class ScratchModules(object):
         import tempfile
         self.dir = tempfile.mkdtemp(prefix="c04_bounded_")
         self.throwers = {}
-        for name, text, delete in (("marked", T(self.MARKED), False), ("deleted", self.PLAIN, True)):
+        for name, text, after in (("marked", T(self.MARKED), None), ("deleted", self.PLAIN, "delete"),
+                                  ("unclosed", self.PLAIN, self.UNCLOSED), ("dedented", self.PLAIN, self.DEDENTED)):
             path = os.path.join(self.dir, "c04_scratch_%s.py" % name)
             with open(path, "w") as f:
                 f.write(text)
@@ -149,8 +152,12 @@ class ScratchModules(object):
             mod = importlib.util.module_from_spec(spec)
             spec.loader.exec_module(mod)
             self.throwers[name] = mod.thrower
-            if delete:
+            if after == "delete":
                 os.remove(path)
+            elif after is not None:
+                # the file changes on disk after it was loaded and no longer tokenizes
+                with open(path, "w") as f:
+                    f.write(after)
         return self.throwers
 
     def __exit__(self, *exc):
@@ -387,6 +394,8 @@ def outcomes(thorough, scratch=None):
     if scratch is not None:
         rz("source-file-deleted", "foreign|sourceless-code", lambda: Boom(plain), how=scratch["deleted"])
         rz("source-file-with-unbalanced-markup", "foreign|source-with-markup", lambda: Boom(plain), how=scratch["marked"])
+        rz("source-file-ends-in-a-string", "foreign|sourceless-code", lambda: Boom(plain), how=scratch["unclosed"])
+        rz("source-file-badly-dedented", "foreign|sourceless-code", lambda: Boom(plain), how=scratch["dedented"])
     rz("sourceless-eval-lambda", "foreign|sourceless-code", lambda: None, how=lambda _: eval("(lambda: 1 // 0)()"), marker=False)
     rz("sourceless-middle-frame", "foreign|sourceless-middle-frame", lambda: Boom(plain),
        how=lambda e: eval("f(e)", {"f": raise_here, "e": e}))
